@@ -28,6 +28,10 @@ ng(N, R) :- ( \+ down(N) -> R = no ; R = yes ).
 two(X, Y) :- q(X), down(Y).
 same(X, X).
 eql(A, B) :- A = B.
+dif(A, B, R) :- A \= B, R = different.
+dif(_, _, same).
+ndf(A, B, R) :- \+ A = B, R = different.
+ndf(_, _, same).
 """
 
 
@@ -94,7 +98,7 @@ class C17(Prop):
         extra_scripts = []
         special = src.n(8)
         if special == 7:
-            k = 100 + src.n(4)
+            k = 100 + src.n(5)
         if k == 100:
             q = ('f', 'pyq', (X,))
             pyfunc = {'name': 'pyq', 'rows': [[('a', 'r1')], [('a', 'r2')], [('a', 'r3')]], 'yields': [bool(src.n(2)), True, bool(src.n(2))]}
@@ -116,6 +120,11 @@ class C17(Prop):
                 l1 = mklist([X] + [('a', 'a')] * n, Y if src.n(2) else NIL)
                 l2 = mklist([('a', 'b')] + [('a', 'a')] * n, mklist([('a', 'c')]) if src.n(2) else NIL)
             q = ('f', src.pick(['same', 'eql']), (l1, l2) if src.n(2) else (l2, l1))
+        elif k == 104:
+            # a deep unification INSIDE \= / \+: when it runs out of stack the answer must not become "different"
+            l1 = mklist([('a', 'a%d' % (i % 5)) for i in range(n)])
+            l2 = mklist([('a', 'a%d' % (i % 5)) for i in range(n)] if src.n(3) else [('a', 'a%d' % (i % 5)) for i in range(max(0, n - 1))] + [('a', 'zz')])
+            q = ('f', src.pick(['dif', 'ndf']), (l1, l2, X))
         elif k == 0:
             q = ('f', 'q', (X,))
         elif k == 1:
@@ -170,7 +179,7 @@ class C17(Prop):
             q = src.pick([('f', 'len', (items, X)), ('f', 'app', (items, mklist([('a', 'x')]), X)), ('f', 'app', (X, Y, items))])
             delta = max(25, 2 * n + src.n(4 * n + 40))
             k = 1
-        if k == 103 and src.n(4):
+        if k in (103, 104) and src.n(4):
             delta = max(25, 2 * n + src.n(n + 40))        # around the depth that doing / undoing the unification needs
         return {'text': text, 'clauses': clauses, 'query': q, 'limit_delta': delta,
                 'proj': proj, 'k': src.n(5), 'proj_depth': src.pick([5, 40, 200, 2000]), 'dyn': dyn, 'pyfunc': pyfunc, 'extra_scripts': extra_scripts,
@@ -478,6 +487,10 @@ def parse_family():
         (f('fa', A('none')), T),
         (f('cnt', V('N'), V('N')), T), (f('cnt', V('N'), V('M')), call(f('cnt', f('s', V('N')), V('M')))),
         (f('same', V('X'), V('X')), T), (f('eql', V('A'), V('B')), call(f('=', V('A'), V('B')))),
+        (f('dif', V('A'), V('B'), V('R')), (',', call(f('\\=', V('A'), V('B'))), call(f('=', V('R'), A('different'))))),
+        (f('dif', V('_1'), V('_2'), A('same')), T),
+        (f('ndf', V('A'), V('B'), V('R')), (',', ('not', call(f('=', V('A'), V('B')))), call(f('=', V('R'), A('different'))))),
+        (f('ndf', V('_1'), V('_2'), A('same')), T),
         (f('mem', V('X'), lp(V('X'), V('_1'))), T), (f('mem', V('X'), lp(V('_1'), V('T'))), call(f('mem', V('X'), V('T')))),
         (f('app', NIL, V('L'), V('L')), T),
         (f('app', lp(V('H'), V('T')), V('L'), lp(V('H'), V('R'))), call(f('app', V('T'), V('L'), V('R')))),
